@@ -79,6 +79,21 @@ class P:
             for q in rng.sample(kinds, 2):
                 k = rng.randrange(len(dgrams) + 1)
                 dgrams[k:k] = [(a, q)] * rng.choice([12, 16, 20])
+        if workers == 1 or rng.random() < 0.6:
+            # template refreshes as exporters really send them: the template set IN FRONT of the data set of the same datagram, the
+            # same records several times over (only the header's sequence number differs): every one of them yields records, so
+            # every one of them is published (the definition is the cached one: independent of the schedule)
+            (a, tid), (t, o) = rng.choice(list(tpls.items()))
+            body = [g.enc_set(g.tpl_set_id(o), g.enc_tpl(t, o)), g.enc_set(tid, b"".join(g.rand_record(t)[0] for _ in range(rng.choice([1, 2, 5]))))]
+            run = [(a, g.enc_msg(body, seq=1000 + i)) for i in range(rng.choice([3, 6, 10]))]
+            if len(run[0][1]) <= 1400:
+                k = rng.randrange(len(dgrams) + 1)
+                if rng.random() < 0.5:
+                    dgrams[k:k] = run
+                else:       # ... with other traffic in between
+                    for q in run:
+                        dgrams.insert(min(k, len(dgrams)), q)
+                        k += rng.choice([1, 2, 4])
         if rng.random() < 0.5:
             # pool hygiene: a run of SHORT datagrams that publish nothing (every early exit of the worker), then LONG data
             (a, tid), (t, o) = rng.choice(list(tpls.items()))
@@ -133,7 +148,7 @@ class P:
             pre, dgrams = [], []
             filt = rng.choice([[], [], [1], [2]])
             for _ in range(rng.choice([20, 100, 250])):
-                p, _, _ = sfgen.gen_datagram(rng)
+                p, _, _ = sfgen.gen_datagram(rng) if rng.random() < 0.8 else sfgen.gen_datagram(rng, kinds=[rng.choice(["flow", "counter"]) for _ in range(rng.choice([5, 6, 8]))])
                 if rng.random() < 0.15:
                     p = mutate(rng, p)
                 if len(p) <= 1400:
@@ -166,7 +181,8 @@ class P:
         self.cj[line] = {"cmd": "pipeline", "proto": proto, "workers": workers, "udpsize": udpsize, "mirror": (force_mirror or rng.random() < 0.3) and proto in ("ipfix", "sflow"),
                          "ext_elements": [[pen, eid, ty] for (pen, eid), (fid, ty) in sorted(TEST_EXT.items())],
                          "pre": [[a.hex(), p.hex()] for a, p in pre], "dgrams": [[a.hex(), p.hex()] for a, p in dgrams], "filter": filt,
-                         "procs": 1 if workers == 1 else 0}    # one worker on one P: a buffer Put into the pool is the next one the receive loop Gets
+                         "procs": 1 if workers == 1 else 0,
+                         "verbose": rng.random() < 0.3}     # the -verbose option on (what is logged must not touch what is published)    # one worker on one P: a buffer Put into the pool is the next one the receive loop Gets
         self.nworkers[line] = workers
         return line
 
@@ -192,6 +208,20 @@ class P:
         for proto in ("ipfix", "nf9", "nf5", "sflow"):
             line = self.case(proto, gens.get(proto), rng)
             self.cj[line]["fill_others"] = True
+            out.append(line)
+        # the producer has STALLED (this pipeline's outgoing queue is full when the datagrams arrive) and wakes up twice in between: what
+        # is published late must still be its own datagram's decode (a message kept back and encoded later must not have lived in a
+        # receive buffer that was reused meanwhile); how MANY are published is not judged here (a full queue drops)
+        for proto in ("ipfix", "nf9", "nf5", "sflow"):
+            line = self.case(proto, gens.get(proto), rng)
+            c = self.cj[line]
+            n = len(c["dgrams"])
+            # the consumer takes everything off at (at most 40) evenly spread points and the queue is filled up again but for two
+            # places: the datagram after a wake-up finds room, the ones after that find the queue full again
+            step = max(2, n // 40)
+            c.update({"fill_own": True, "drain_after": list(range(0, n, step)), "refill_room": 2, "workers": 1, "procs": 1, "mirror": False})
+            self.nworkers[line] = 1
+            self.content_only.add(line)
             out.append(line)
         # workers RETIRED before the datagrams arrive (their quit channel is closed while they wait for work, as the dynamic
         # scaling does after a burst): the remaining workers process everything; a retired worker must not take a datagram with it
@@ -294,6 +324,8 @@ class P:
     def judge_counts(self, line, a, b, ca, cb):
         # C12 proper: content only.  (multiplicities and counters are C13's)
         return None
+
+    content_only = set()
 
     def classify(self, line, impl, model):
         c = self.cj[line]
